@@ -138,6 +138,62 @@ theorem append_assoc (a b c : Phrase) :
     ((a.append b).append c).toFields = (a.append (b.append c)).toFields := by
   simp only [append_denote, joinFields_assoc]
 
+/-- ★ Every operation on a `Phrase` commutes with its denotation (`toFields`), for every constructor shape — a single
+    `Char`, one `Field` (empty or not), `Full` with no, one or several fields: `for_each_char_mut` (`mapChars`, hence the
+    re-attribution `switch::attribute`) maps every character of every field; `append` glues last to first; `ifs_join`
+    joins with the `$*` separator; `double_quote` wraps every field; the conversion to fields, field splitting and quote
+    removal only look at the denotation. -/
+theorem phrase_operations_denote (p q : Phrase) (f : AttrChar → AttrChar) (env : Env) :
+    (p.mapChars f).toFields = p.toFields.map (·.map f) ∧
+    (reattribute p).toFields = soften p.toFields ∧
+    (p.append q).toFields = joinFields p.toFields q.toFields ∧
+    p.ifsJoin env = joinBySep env p.toFields ∧
+    (doubleQuote p).toFields = p.toFields.map quoteField := by
+  refine ⟨?_, toFields_reattribute p, append_toFields p q, ifsJoin_eq p env, toFields_doubleQuote p⟩
+  cases p <;> simp [Phrase.mapChars, Phrase.toFields]
+
+/-- ★ Representation independence: two phrases that denote the same fields — whatever their shapes — are
+    indistinguishable by every operation of the expansion: re-attribution, `for_each_char_mut` with any function,
+    appending on either side, `$*` joining, double-quoting, and the final splitting / quote removal of
+    `expand_word_multiple` (which reads `toFields` only). -/
+theorem phrase_representation_independent (p q : Phrase) (h : p.toFields = q.toFields) :
+    (∀ f, (p.mapChars f).toFields = (q.mapChars f).toFields) ∧
+    (reattribute p).toFields = (reattribute q).toFields ∧
+    (∀ r : Phrase, (p.append r).toFields = (q.append r).toFields) ∧
+    (∀ r : Phrase, (r.append p).toFields = (r.append q).toFields) ∧
+    (∀ env, p.ifsJoin env = q.ifsJoin env) ∧
+    (doubleQuote p).toFields = (doubleQuote q).toFields ∧
+    (∀ ifs, (p.toFields.flatMap (splitInto ifs)).map removeQuotesAndStrip =
+            (q.toFields.flatMap (splitInto ifs)).map removeQuotesAndStrip) := by
+  refine ⟨fun f => ?_, ?_, fun r => ?_, fun r => ?_, fun env => ?_, ?_, fun ifs => by rw [h]⟩
+  · have hm : ∀ x : Phrase, (x.mapChars f).toFields = x.toFields.map (·.map f) := by
+      intro x; cases x <;> simp [Phrase.mapChars, Phrase.toFields]
+    rw [hm p, hm q, h]
+  · rw [toFields_reattribute, toFields_reattribute, h]
+  · rw [append_toFields, append_toFields, h]
+  · rw [append_toFields, append_toFields, h]
+  · rw [ifsJoin_eq, ifsJoin_eq, h]
+  · rw [toFields_doubleQuote, toFields_doubleQuote, h]
+
+/-- A one-character phrase in its three representations — `Char(c)`, `Field([c])`, `Full([[c]])` — denotes the same
+    single field, so by `phrase_representation_independent` a one-character word behaves like the one-element field
+    everywhere; in particular its re-attribution softens that character in all three shapes. -/
+theorem one_char_shapes (c : AttrChar) :
+    (Phrase.char c).toFields = [[c]] ∧ (Phrase.field [c]).toFields = [[c]] ∧ (Phrase.full [[c]]).toFields = [[c]] ∧
+    reattribute (.char c) = .char (softenChar c) ∧ reattribute (.field [c]) = .field [softenChar c] ∧
+    reattribute (.full [[c]]) = .full [[softenChar c]] ∧
+    (∀ env, (Phrase.char c).ifsJoin env = [c] ∧ (Phrase.field [c]).ifsJoin env = [c] ∧ (Phrase.full [[c]]).ifsJoin env = [c]) :=
+  ⟨rfl, rfl, rfl, rfl, rfl, rfl, fun _ => ⟨rfl, rfl, rfl⟩⟩
+
+/-- The seeded mistake of round 7 as a statement: the word of a switch that consists of ONE literal character is
+    substituted as a soft expansion — it is split like any other expansion result.  `${u-c}` with `u` unset and `c` an
+    IFS character yields no field at all (one delimiter), for every environment whose IFS contains `c`. -/
+theorem one_char_switch_word_is_soft (env : Env) (c : Char) (hu : env.getValue "u" = none) :
+    (expandWord env true (.cons (.unq (.param (.var "u") (.switch .unset .default (.cons (.unq (.lit c)) .nil)))) .nil)).2
+      = .ok (.char (softChar c)) := by
+  simp [expandWord, expandWordUnit, expandTextUnit, expandParam, resolve, hu, Vacancy.of, ValueCondition.with_,
+    switchDecision, expandWordGo, reattribute, Phrase.mapChars, softenChar, softChar, Phrase.zeroFields, Phrase.append]
+
 /-! ## Switch modifiers -/
 
 /-- ★ The decision taken by `switch::apply` is the entry of the XCU 2.6.2 table, for every action,
@@ -789,6 +845,96 @@ example : tildeText (envHome "/h") "zz".toList false = "~zz".toList ∧ tildeDir
 /-- inside double quotes `~` is an ordinary character (`quotes_protect`) -/
 example : expandWordMultiple (envHome "/h") (.cons (.dq (.cons (.lit '~') .nil)) .nil) = (envHome "/h", .ok ["~".toList]) :=
   quotes_protect _ _ _ (by simp) rfl
+
+/-! ## Which `~` is a tilde prefix (`parser/lex/tilde.rs`) -/
+
+/-- In a word without an unquoted colon the two readings coincide: `parse_tilde_everywhere_after(0)` (assignment
+    values) finds exactly the tilde prefix `parse_tilde_front` (command words) finds. -/
+theorem tilde_everywhere_eq_front (us : List WordUnit) (h : ∀ u ∈ us, isColonUnit u = false) :
+    parseTildeEverywhereAfter 0 us = parseTildeFront us := by
+  have hnone : ∀ l : List WordUnit, (∀ u ∈ l, isColonUnit u = false) → l.findIdx? isColonUnit = none := by
+    intro l hl
+    rw [List.findIdx?_eq_none_iff]; exact hl
+  have hpt : parseTilde us true = parseTilde us false := by
+    unfold parseTilde
+    split
+    · rename_i rest
+      exact parseTildeGo_no_colon rest (fun u hu => h u (by simp [hu])) [] 1
+    · rfl
+  simp only [parseTildeEverywhereAfter, List.take_zero, List.nil_append, List.drop_zero, parseTildeEverywhereGo,
+    parseTildeFront, hpt]
+  cases hp : parseTilde us false with
+  | none => simp [hnone us h]
+  | some r =>
+    obtain ⟨len, name, slash⟩ := r
+    have hd : ∀ u ∈ us.drop len, isColonUnit u = false := fun u hu => h u (List.mem_of_mem_drop hu)
+    simp [hnone _ hd]
+
+/-- the example of tilde.rs: `~=~a/b:~c` read from unit 2 on -/
+example : parseTildeEverywhereAfter 2 ("~=~a/b:~c".toList.map fun c => WordUnit.unq (.lit c)) =
+    [.unq (.lit '~'), .unq (.lit '='), .tilde ['a'] true, .unq (.lit '/'), .unq (.lit 'b'), .unq (.lit ':'), .tilde ['c'] false] := by
+  rfl
+
+/-! ## Arithmetic expansion (XCU 2.6.4; `initial/arith.rs` composed with the yash-arith model of C03) -/
+
+/-- ★ `$((…))` yields the value in decimal as characters of a SOFT expansion: as a command argument it IS split at
+    the IFS in force after the evaluation (e.g. at a digit or the minus sign when IFS holds one), for every content,
+    environment and value. -/
+theorem arith_expansion_is_split (env env1 env2 : Env) (t : Text) (src : List Char) (v : Int)
+    (h1 : expandTextJoined env t = (env1, .ok src))
+    (h2 : Arith.evalStrG arithI false src env1 = .ok (v, env2)) :
+    expandWordMultiple env (.cons (.unq (.arith t)) .nil) =
+      (env2, .ok ((splitInto env2.ifs (toField (intChars v))).map removeQuotesAndStrip)) := by
+  simp [expandWordMultiple, expandWord, expandWordUnit, arith_unit env env1 env2 true t src v h1 h2, expandWordGo,
+    Phrase.zeroFields, Phrase.append, Phrase.toFields]
+
+/-- … and inside double quotes it is one field, the decimal value, whatever IFS is. -/
+theorem arith_in_dquotes_one_field (env env1 env2 : Env) (t : Text) (src : List Char) (v : Int)
+    (h1 : expandTextJoined env t = (env1, .ok src))
+    (h2 : Arith.evalStrG arithI false src env1 = .ok (v, env2)) :
+    expandWordMultiple env (.cons (.dq (.cons (.arith t) .nil)) .nil) = (env2, .ok [intChars v]) := by
+  have hq : ∀ c ∈ quoteField (toField (intChars v)), c.isQuoted = true ∨ c.isQuoting = true ∨ c.origin ≠ .softExpansion :=
+    quoteField_protected _
+  have hs := quoted_never_split env2.ifs _ hq
+  have hne : quoteField (toField (intChars v)) ≠ [] := by simp [quoteField]
+  simp only [expandWordMultiple, expandWord, expandWordUnit, Text.isNil, expandTextGo,
+    arith_unit env env1 env2 false t src v h1 h2, expandWordGo, Phrase.zeroFields, Phrase.append, Phrase.toFields,
+    doubleQuote, List.flatMap_cons, List.flatMap_nil, List.append_nil, Bool.false_eq_true, if_false]
+  rw [hs]
+  simp [hne, removeQuotes_quoteField_toField]
+
+/-- ★ Assignments made inside `$((…))` are visible to the later units of the same word, left to right: what follows
+    the arithmetic expansion is expanded in the environment the evaluation left, glued to the value. -/
+theorem arith_assignment_visible_later (env env1 env2 : Env) (ws : Bool) (t : Text) (src : List Char) (v : Int) (w : Word)
+    (h1 : expandTextJoined env t = (env1, .ok src))
+    (h2 : Arith.evalStrG arithI false src env1 = .ok (v, env2)) :
+    expandWord env ws (.cons (.unq (.arith t)) w) = expandWordGo env2 ws (.field (toField (intChars v))) w := by
+  simp [expandWord, expandWordUnit, arith_unit env env1 env2 ws t src v h1 h2, Phrase.zeroFields, Phrase.append]
+
+/-- the adapter: the interface C03's evaluator uses reads `get_scalar` and writes through `Env.assign` -/
+theorem arithI_is_the_environment (env : Env) (name : List Char) (val : List Char) :
+    (arithI.assign env name val = match env.assign (String.ofList name) val with
+      | some e => .ok e | none => .error .assignVariableError) ∧
+    (arithI.get env name = match env.getScalar (String.ofList name) with
+      | some s => .ok (some s) | none => if env.nounset then .error .getVariableError else .ok none) :=
+  ⟨rfl, rfl⟩
+
+def envX (x : String) (ifs : String) : Env :=
+  { vars := [("IFS", { value := some (.scalar ifs.toList), readOnly := false }),
+             ("x", { value := some (.scalar x.toList), readOnly := false })],
+    pos := [], nounset := false, exitStatus := 0, arg0 := [] }
+
+def litText (s : String) : Text := s.toList.foldr (fun c t => .cons (.lit c) t) .nil
+
+/-- `$((x=5))$x` with x = 3: the later `$x` sees 5 -/
+example : ((expandWordSingle (envX "3" " ") (.cons (.unq (.arith (litText "x=5"))) (.cons (.unq (.param (.var "x") .none)) .nil))).2.toOption)
+    = some "55".toList := by decide +kernel
+/-- `$((100+1))` with IFS = `0`: split at the zero -/
+example : ((expandWordMultiple (envX "3" "0") (.cons (.unq (.arith (litText "100+1"))) .nil)).2.toOption)
+    = some ["1".toList, "1".toList] := by decide +kernel
+/-- `"$((x++))$x"$x` -/
+example : ((expandWordMultiple (envX "3" " ") (.cons (.dq (.cons (.arith (litText "x++")) (.cons (.param (.var "x") .none) .nil)))
+      (.cons (.unq (.param (.var "x") .none)) .nil))).2.toOption) = some ["344".toList] := by decide +kernel
 
 /-! ## `${p}` and `${#p}` -/
 
